@@ -34,7 +34,8 @@ TABLE = {
     ("retried", "+1", "Step", "Failed", "retry"): [],
     ("hook_errors", "+1", "Hook", "Failed", None): [],
     ("parsing_errors", "+1", "Result", "Err", None): [],
-    ("features_without_path", "+1", "Feature", "Started", None): [r"Option::is_none\(&?.*path.*\)"],
+    # (only for a feature without a path: `feature.path.is_none()` — an Option of the event's own feature)
+    ("features_without_path", "+1", "Feature", "Started", None): [r"Option::is_none\(&?.*path.*\)", r"^discr\(std::option::Option\)$"],
 }
 COUNTERS = {"passed", "ignored", "failed", "retried", "hook_errors", "parsing_errors", "features_without_path"}
 
@@ -168,8 +169,10 @@ MANDATORY = {
 
 
 def r3(F, R):
-    root, bodies, ws = W.check_counter_table(F, R, LT, TABLE, COUNTERS)
-    W.check_mandatory(F, R, LT, ws, MANDATORY)
+    from . import writers_deep as WD
+    WD.check_counter_table(F, R, LT, TABLE, COUNTERS)
+    WD.check_mandatory(F, R, LT, MANDATORY)
+    root, bodies = W.handler_bodies(F, LT)
     ctors = test_event_ctors(F)
     calls = ctor_calls(F, bodies, ctors)
     want = {"Started": "Started", "Passed": "Ok", "Skipped": "Ignored", "Failed": "Failed"}
